@@ -121,7 +121,7 @@ impl Check for C03 {
     }
     fn required_probes(&self) -> Vec<&'static str> { vec!["diagrams_with_torsion"] }
     fn max_steps(&self) -> usize { 50_000_000 }
-    fn runs(&self, tier: &str) -> u64 { if tier == "quick" { 1_200 } else { 300_000 } }
+    fn runs(&self, tier: &str) -> u64 { if tier == "quick" { 4_000 } else { 250_000 } }
     fn gen_case(&self, rng: &mut Rng, _idx: u64, tier: &str) -> Value {
         let max_x = if tier == "quick" { 9 } else { 11 };
         // odd torsion appears late: give the torus-knot-like entries extra weight
